@@ -6,7 +6,8 @@ A case is a program: a list of commands run against a list of HTTPHeaders object
   ["on", i, "get_list", n] ["on", i, "contains", n] ["on", i, "keys"] ["on", i, "get_all"]
   ["on", i, "parse_line", line] ["on", i, "str"]
   ["on", i, "getd", n] ["on", i, "pop", n] ["on", i, "setdefault", n, v] ["on", i, "items"] ["on", i, "len"]
-  ["on", i, "update", [[n, v], ...]]      (MutableMapping mixins)
+  ["on", i, "update", [[n, v], ...]] ["on", i, "popitem"] ["on", i, "clear"] ["on", i, "values"]     (MutableMapping mixins)
+  ["fromkw", pairs, kwpairs]              (HTTPHeaders(pairs_or_dict, **kwargs))
   ["copy", i]  ["parse", text]  ["reparse", i]  ["frompairs", [[n, v], ...]]  ["eq", i, j]
 Observable: the result (or exception kind) of every command, then list(h) and
 list(h.get_all()) of every object.
@@ -146,6 +147,12 @@ def run_impl(case):
                 r = _norm_err(lambda: len(h))
             elif name == "update":
                 r = _norm_err(unit(lambda: h.update(_pairs_arg(args[0]))))
+            elif name == "popitem":
+                r = _norm_err(lambda: [list(h.popitem())])
+            elif name == "clear":
+                r = _norm_err(unit(lambda: h.clear()))
+            elif name == "values":
+                r = _norm_err(lambda: list(h.values()))
             else:
                 raise ValueError(name)
             results.append(r)
@@ -166,8 +173,11 @@ def run_impl(case):
                 results.append(G.Tag("BadTarget"))
                 continue
             results.append(_norm_err(lambda: objs[c[1]] == objs[c[2]]))
-        elif kind == "frompairs":
-            new = _norm_err(lambda: HTTPHeaders(_pairs_arg(c[1])))
+        elif kind in ("frompairs", "fromkw"):
+            if kind == "fromkw":      # HTTPHeaders(mapping_or_pairs, **kwargs): update(arg) then the keywords in order
+                new = _norm_err(lambda: HTTPHeaders(_pairs_arg(c[1]), **{k: v for k, v in c[2]}) if c[1] else HTTPHeaders(**{k: v for k, v in c[2]}))
+            else:
+                new = _norm_err(lambda: HTTPHeaders(_pairs_arg(c[1])))
             if isinstance(new, G.Tag):
                 results.append(new)
             else:
@@ -219,6 +229,9 @@ def coq_cmd(c):
             "items": lambda: "Items",
             "len": lambda: "Len",
             "update": lambda: "(Update %s)" % _gpairs(args[0]),
+            "popitem": lambda: "PopItem",
+            "clear": lambda: "Clear",
+            "values": lambda: "Values",
         }[name]()
         return "On %s %s" % (G.gnat(i), opt)
     if kind == "copy":
@@ -229,6 +242,8 @@ def coq_cmd(c):
         return "Parse %s" % _t(c[1])
     if kind == "frompairs":
         return "FromPairs %s" % _gpairs(c[1])
+    if kind == "fromkw":     # same self[k] = v sequence: positional pairs first, then the keywords
+        return "FromPairs %s" % _gpairs(list(c[1]) + list(c[2]))
     if kind == "eq":
         return "Eq %s %s" % (G.gnat(c[1]), G.gnat(c[2]))
     raise ValueError(kind)
@@ -427,15 +442,28 @@ def py_expected(case):
             elif name == "update":
                 h.update(a[0])
                 res.append(None)
+            elif name == "popitem":
+                if h.rows:
+                    r = h.rows.pop(0)
+                    res.append([[r[1], ",".join(r[2])]])
+                else:
+                    res.append(G.Tag("KeyError"))
+            elif name == "clear":
+                h.rows = []
+                res.append(None)
+            elif name == "values":
+                res.append([",".join(r[2]) for r in h.rows])
         elif c[0] == "eq":
             if not (0 <= c[1] < len(objs) and 0 <= c[2] < len(objs)):
                 res.append(G.Tag("BadTarget"))
                 continue
             x, y = objs[c[1]], objs[c[2]]
             res.append({r[1]: ",".join(r[2]) for r in x.rows} == {r[1]: ",".join(r[2]) for r in y.rows})
-        elif c[0] == "frompairs":
+        elif c[0] in ("frompairs", "fromkw"):
             new = _Ref()
             new.update(c[1])
+            if c[0] == "fromkw":
+                new.update(c[2])
             objs.append(new)
             res.append(None)
         else:
@@ -468,7 +496,7 @@ def _validated(case):
             return False
         if c[0] == "on" and c[2] == "update" and not all(_is_token(k) and _is_fv(v) for k, v in c[3]):
             return False
-        if c[0] == "frompairs" and not all(_is_token(k) and _is_fv(v) for k, v in c[1]):
+        if c[0] in ("frompairs", "fromkw") and not all(_is_token(k) and _is_fv(v) for k, v in list(c[1]) + (list(c[2]) if c[0] == "fromkw" else [])):
             return False
     return True
 
@@ -536,7 +564,7 @@ PROBE6 = [
     lambda p: on(0, "parse_line", "a: p%d\r\n" % p),
 ]
 PROBE7 = PROBE6 + [lambda p: on(0, "add", "b", "q%d" % p)]
-PROBE8 = PROBE6 + [lambda p: on(0, "pop", "a"), lambda p: on(0, "setdefault", "A", "d%d" % p)]
+PROBE8 = PROBE6 + [lambda p: on(0, "pop", "a"), lambda p: on(0, "setdefault", "A", "d%d" % p), lambda p: on(0, "popitem")]
 PROBE9 = PROBE8 + [lambda p: on(0, "add", "b", "q%d" % p)]
 
 
@@ -546,8 +574,10 @@ def cache_probe(alpha, n, keys):
         prog = []
         for p, k in enumerate(seq):
             prog.append(alpha[k](p))
-            kind = (p + n) % 3
-            if kind == 0:
+            kind = (p + n) % 4
+            if kind == 3:
+                prog.append(on(0, "values"))
+            elif kind == 0:
                 prog += [on(0, "get", k2) for k2 in keys]
             elif kind == 1:
                 prog += [on(0, "getd", k2) for k2 in keys]
@@ -613,7 +643,7 @@ def rand_prog(rng, maxlen):
             c = on(i, "parse_line", rand_line(rng))
         elif r < 0.85:
             c = on(i, rng.choice(["keys", "get_all", "str", "items", "len", "items"]))
-        elif r < 0.875:
+        elif r < 0.885:
             k = rng.random()
             if k < 0.3:
                 c = on(i, "pop", rand_name(rng, False))
@@ -621,10 +651,18 @@ def rand_prog(rng, maxlen):
                 c = on(i, "setdefault", rand_name(rng, False), rand_value(rng, 0.1))
             elif k < 0.7:
                 c = on(i, "update", rand_pairs(rng))
-            elif k < 0.85:
+            elif k < 0.8:
                 c = ["eq", i, rng.randrange(nobj)]
-            else:
+            elif k < 0.86:
+                c = on(i, rng.choice(["popitem", "popitem", "clear", "values"]))
+            elif k < 0.93:
                 c = ["frompairs", rand_pairs(rng)]
+                nobj += 1
+            else:
+                kw = {}
+                for kk, vv in rand_pairs(rng):
+                    kw[kk] = vv
+                c = ["fromkw", rand_pairs(rng), [[kk, vv] for kk, vv in kw.items()]]
                 nobj += 1
         elif r < 0.91:
             c = ["copy", i]
@@ -681,6 +719,11 @@ def corpus_cases():
          ["copy", 1], ["eq", 1, 2], on(2, "add", "c", "7"), ["eq", 1, 2], ["eq", 2, 2], ["eq", 0, 0], ["eq", 0, 5]],
         [["frompairs", [["a", "1"], ["b", "2"]]], ["frompairs", [["B", "2"], ["A", "1"]]], ["eq", 1, 2], on(1, "add", "a", "x"), ["eq", 1, 2],
          on(2, "set", "a", "1,x"), ["eq", 1, 2], ["eq", 2, 1]],
+        # popitem / clear / values / constructor keywords
+        [["fromkw", [["a", "1"], ["b", "2"]], [["A", "3"], ["x-y", "4"]]], on(1, "values"), on(1, "add", "B", "5"), on(1, "popitem"), on(1, "values"),
+         on(1, "keys"), on(1, "clear"), on(1, "popitem"), on(1, "len"), on(1, "parse_line", " c"), on(0, "clear"), on(0, "values")],
+        [["fromkw", [], [["a", "1"]]], ["fromkw", [["a", " raw"]], []], on(2, "popitem"), ["copy", 1], ["eq", 1, 3]],
+        [on(0, "add", "a", "1"), on(0, "get", "a"), on(0, "clear"), on(0, "add", "A", "2"), on(0, "get", "a"), on(0, "items")],
         # the seeded S1 pattern: two values, mapping read, continuation, mapping read (h.get / items / ==)
         [on(0, "add", "a", "1"), on(0, "add", "A", "2"), on(0, "getd", "a"), on(0, "parse_line", " c"), on(0, "getd", "a"), on(0, "items"), ["copy", 0], ["eq", 0, 1]],
         # witnesses of the defect fixed by 3fd7028: folding onto an empty value / an empty continuation
@@ -697,7 +740,7 @@ def gen_cases(rng, tier):
         for n in (1, 2):
             out += list(exhaustive(ALPHA12, n))          # 13 + 169
         for n in (1, 2, 3):
-            out += list(cache_probe(PROBE8, n, ["A"]))   # 8 + 64 + 512
+            out += list(cache_probe(PROBE8, n, ["A"]))   # 9 + 81 + 729
         out += list(cache_probe(PROBE6, 4, ["A"]))       # 1296
         nrand, maxlen = 450, 12
     elif tier == "search":
@@ -720,7 +763,7 @@ HAS_SEARCH_TIER = True
 
 
 def nontrivial(case, o):
-    if not any(c[0] != "on" or c[2] in ("add", "set", "del", "parse_line", "pop", "setdefault", "update") for c in case):
+    if not any(c[0] != "on" or c[2] in ("add", "set", "del", "parse_line", "pop", "setdefault", "update", "popitem", "clear") for c in case):
         return None
     return G.jsonable(case)
 
